@@ -108,7 +108,8 @@ def check_dfa_run(ctx, rep, f, rule=RULE + '.M8'):
 
 
 def _pda_classes():
-    return {'PDAState': lambda q, stack: Obj('PDAState', q=q, stack=list(stack))}
+    # 'real': the configuration class as the analysed tree defines it (its __init__ is evaluated; seed C15-k changes the type of the stack there)
+    return {'PDAState': 'real'}
 
 
 def _pda_model():
